@@ -169,7 +169,8 @@ class Contract:
             if k > 0:
                 raise PyRaise(self.may_raise[k - 1])
         r = self.fresh_result(c, a)
-        self.post(EnsureCtx(c, 'assume'), a, r)
+        if not getattr(self, 'exact_result', False):
+            self.post(EnsureCtx(c, 'assume'), a, r)     # (an exact result() already says everything post would)
         self.effects(c, a, r)
         return r
 
